@@ -18,3 +18,4 @@ def check(ctx, rep):
     predicates.is_done_table(ctx, rep, "R03.2")
     runrules.eager(ctx, rep, "R03.2e", "R03.2", "R03.2b", "R03.2g")
     runrules.deadline(ctx, rep, "R03.3", "R03.3")
+    common.wrap_typestate(ctx, rep, "R03.5")
